@@ -1586,12 +1586,9 @@ func (self *LockDB) RemoveLockManager(lockManager *LockManager) {
 	}
 
 	self.mGlock.Lock()
-	if _, ok := self.locks[lockManager.lockKey]; !ok {
-		self.mGlock.Unlock()
-		return
+	if self.locks[lockManager.lockKey] == lockManager {
+		delete(self.locks, lockManager.lockKey)
 	}
-
-	delete(self.locks, lockManager.lockKey)
 	atomic.AddUint32(&fastValue.count, 0xffffffff)
 	self.mGlock.Unlock()
 	lockManager.lockKey[0], lockManager.lockKey[1], lockManager.lockKey[2], lockManager.lockKey[3], lockManager.lockKey[4], lockManager.lockKey[5], lockManager.lockKey[6], lockManager.lockKey[7],
